@@ -310,7 +310,7 @@ def existsOp (path : String) : BM String := do
 
 def readFile (path : String) : BM String := do
   let h ← nextHelperVar
-  varAssignment h s!"$(cat -- \"{path}\")" false
+  varAssignment h s!"$(cat < \"{path}\")" false
   varEvaluation h false
 
 /-- the bodies of the three helper routines (fixed text) -/
